@@ -58,6 +58,10 @@ type Term struct {
 
 var termCount int
 
+// termBudgetCheck is called every 65536 term constructions; it panics when the function under proof has used up its
+// budget of terms or time (reported as an engine failure for that function, never as a pass)
+var termBudgetCheck func()
+
 type termKey struct {
 	op, name string
 	iv       int64
@@ -95,6 +99,9 @@ func mk(op, name string, iv int64, s *Sort, args ...*Term) *Term {
 		return t
 	}
 	termCount++
+	if termCount&0xffff == 0 && termBudgetCheck != nil {
+		termBudgetCheck()
+	}
 	t := &Term{Op: op, Name: name, Int: iv, Args: args, S: s, id: termCount}
 	for _, a := range args {
 		if a.HasBound {
